@@ -42,23 +42,32 @@ type Step struct {
 }
 
 type Case struct {
-	Mode       string        `json:"mode,omitempty"`  // generator mode (label only): eligible | single | free
-	Break      string        `json:"break,omitempty"` // mode single: the premise that was broken (label only)
-	Router     string        `json:"router"`
-	SignKey    string        `json:"sign_key"`                   // rsa1 | p256a | ed1
-	ClientAuth string        `json:"client_auth"`                // registered auth method of the exchanging client
-	Cred       string        `json:"cred"`                       // right | basic_right | post_right | wrong_secret | no_cred | unknown_client | bad_assertion | malformed_basic
-	IssueJWT   bool          `json:"issue_jwt"`                  // exchanging client's access token type is JWT
-	NoGrant    bool          `json:"no_grant,omitempty"`         // exchanging client is not registered for the token-exchange grant
-	NoRefresh  bool          `json:"no_refresh_grant,omitempty"` // exchanging client is not registered for the refresh_token grant
-	Subject    TokSpec       `json:"subject"`
-	Actor      *TokSpec      `json:"actor,omitempty"`
-	Requested  string        `json:"requested"` // "" | access | refresh | id | jwt | saml2 | short
-	Scopes     []string      `json:"scopes,omitempty"`
-	Audience   []string      `json:"audience,omitempty"`
-	Resource   []string      `json:"resource,omitempty"`
-	Policy     vkit.TEPolicy `json:"policy"`
-	Extras     bool          `json:"extras,omitempty"` // storage also implements TokenExchangeTokensVerifierStorage
+	Mode       string `json:"mode,omitempty"`  // generator mode (label only): eligible | single | free
+	Break      string `json:"break,omitempty"` // mode single: the premise that was broken (label only)
+	Router     string `json:"router"`
+	SignKey    string `json:"sign_key"`    // rsa1 | p256a | ed1
+	ClientAuth string `json:"client_auth"` // registered auth method of the exchanging client
+	// AppType: registered application type of the exchanging client, independent of its auth method: web | native | user_agent
+	// ("" = what the check registered before this dimension existed: native for auth method none, web otherwise)
+	AppType string `json:"app_type,omitempty"`
+	// Cred: how the client presents itself: right | basic_right | post_right (its secret by that channel) | wrong_secret |
+	// wrong_secret_other (a wrong secret by the channel the client is NOT registered for) | no_cred (client_id in the form and
+	// nothing else; a public client: nothing at all) | id_only (client_id in the form, whatever the registration) |
+	// basic_empty (Basic header with an empty password) | post_empty (client_id and an empty client_secret in the form) |
+	// own_assertion (a valid assertion signed with a key registered for the client, whatever its auth method) |
+	// unknown_client | bad_assertion | malformed_basic
+	Cred      string        `json:"cred"`
+	IssueJWT  bool          `json:"issue_jwt"`                  // exchanging client's access token type is JWT
+	NoGrant   bool          `json:"no_grant,omitempty"`         // exchanging client is not registered for the token-exchange grant
+	NoRefresh bool          `json:"no_refresh_grant,omitempty"` // exchanging client is not registered for the refresh_token grant
+	Subject   TokSpec       `json:"subject"`
+	Actor     *TokSpec      `json:"actor,omitempty"`
+	Requested string        `json:"requested"` // "" | access | refresh | id | jwt | saml2 | short
+	Scopes    []string      `json:"scopes,omitempty"`
+	Audience  []string      `json:"audience,omitempty"`
+	Resource  []string      `json:"resource,omitempty"`
+	Policy    vkit.TEPolicy `json:"policy"`
+	Extras    bool          `json:"extras,omitempty"` // storage also implements TokenExchangeTokensVerifierStorage
 	// ActPolicy: which `act` claim the storage publishes in the tokens of an exchange (decideAct): "" {sub: actor} | rename | nested | extra | none | always
 	ActPolicy string `json:"act_policy,omitempty"`
 	// VouchRole: the role in which the storage's verifier vouches for third-party tokens: "" both | subject-only | actor-only
@@ -202,7 +211,9 @@ func genSubset(t *rapid.T, label string, pool []string, max int) []string {
 
 var (
 	authMethods = []string{"client_secret_basic", "client_secret_basic", "client_secret_basic", "client_secret_post", "none", "private_key_jwt"}
-	badCreds    = []string{"wrong_secret", "no_cred", "unknown_client", "bad_assertion", "malformed_basic", "basic_right", "post_right"}
+	badCreds    = []string{"wrong_secret", "no_cred", "unknown_client", "bad_assertion", "malformed_basic", "basic_right", "post_right",
+		"id_only", "basic_empty", "post_empty", "wrong_secret_other", "own_assertion", "no_cred", "id_only", "basic_empty"}
+	appTypes    = []string{"web", "native", "user_agent"}
 	okRequested = []string{"", "access", "refresh", "id", "access", "refresh", "id"}
 	badRequest  = []string{"jwt", "saml2", "short"}
 )
@@ -296,6 +307,8 @@ func genOne(t *rapid.T) Case {
 	c.Router = rapid.SampledFrom([]string{"provider", "legacy"}).Draw(t, "router")
 	c.SignKey = rapid.SampledFrom([]string{"p256a", "rsa1", "ed1", "p256a"}).Draw(t, "signkey")
 	c.ClientAuth = rapid.SampledFrom(authMethods).Draw(t, "clientauth")
+	// the application type is registered independently of the auth method (a native app may hold a secret, a web app may be public)
+	c.AppType = rapid.SampledFrom(append([]string{"", ""}, appTypes...)).Draw(t, "apptype")
 	c.IssueJWT = rapid.Bool().Draw(t, "issuejwt")
 	c.Scopes = genSubset(t, "scope", scopePool, 4)
 	c.Audience = genSubset(t, "aud", audPool, 2)
@@ -371,7 +384,7 @@ func genOne(t *rapid.T) Case {
 		return c
 	}
 	// break exactly one premise
-	breaks := []string{"subject-dead", "subject-decl", "subject-garbage", "cred", "veto", "requested", "subject-dead", "subject-decl"}
+	breaks := []string{"subject-dead", "subject-decl", "subject-garbage", "cred", "cred", "veto", "requested", "subject-dead", "subject-decl"}
 	if c.Actor != nil {
 		breaks = append(breaks, "actor-dead", "actor-decl", "actor-garbage", "actor-dead", "actor-decl", "actor-same-decl")
 	}
@@ -444,22 +457,22 @@ func genOne(t *rapid.T) Case {
 // ---- execution helpers ------------------------------------------------------------
 
 type world struct {
-	c       Case
-	st      *vkit.Store
-	ags     [2]*vkit.Agent   // one per host (the same provider)
-	ag      *vkit.Agent      // agent of the exchange under way
-	iss     string           // issuer of the exchange under way
-	sk      vkit.SignKeySpec // the storage's signing key at this time
-	keyOps  int
+	c        Case
+	st       *vkit.Store
+	ags      [2]*vkit.Agent   // one per host (the same provider)
+	ag       *vkit.Agent      // agent of the exchange under way
+	iss      string           // issuer of the exchange under way
+	sk       vkit.SignKeySpec // the storage's signing key at this time
+	keyOps   int
 	keyTrace []string // key changes of the storage so far
-	clA     *vkit.ClientSpec
-	clB     *vkit.ClientSpec
-	foreign *vkit.Agent // lazily built second provider (other issuer, other keys)
+	clA      *vkit.ClientSpec
+	clB      *vkit.ClientSpec
+	foreign  *vkit.Agent // lazily built second provider (other issuer, other keys)
 	// actorUnknown: the actor token is grey, so the actor the issued token must carry is not decidable
 	actorUnknown bool
 	// expAct: the `act` claim the storage policy decided for the exchange under way (nil = none)
-	expAct map[string]any
-	fClient      *vkit.ClientSpec
+	expAct  map[string]any
+	fClient *vkit.ClientSpec
 }
 
 // plus: the parts of the storage's token-exchange policy that live in this package (see helpers_test.go).
@@ -526,6 +539,8 @@ type tokenTruth struct {
 	signer   string // name and kid of the key the JWT was signed with
 	kid      string
 	mintHost int
+	// resignedServed: a copy re-signed by the harness with a key the storage has come to serve since (verifies like a genuine one)
+	resignedServed bool
 }
 
 // prepare produces the token string of a TokSpec through the provider (and the harness' forge); at establishes whether it is live.
@@ -661,6 +676,8 @@ func (w *world) at(s TokSpec, tt tokenTruth, host int) tokenTruth {
 		case s.State == "resigned":
 			if served >= 0 {
 				tt.Live, tt.Why = 0, "setup: the key the harness re-signed with is one the storage serves now"
+				// (after a rotation to that very key the re-signed copy IS a validly signed JWT of the provider)
+				tt.resignedServed = !(w.c.Hosts && tt.mintHost != host)
 			}
 		case w.c.Hosts && tt.mintHost != host:
 			tt.Live, tt.Unverifiable = -1, "other-host-issuer"
@@ -813,7 +830,7 @@ func (w *world) validity(s TokSpec, tt tokenTruth, role string) (int, string) {
 	if s.Declared != matchingType(s.Kind) {
 		// whatever its state: the token is not of the declared type. One family gets its own class: the provider's two
 		// JWT kinds presented as each other while the JWT itself still verifies (signature, issuer, expiry).
-		verifies := (s.State == "live" || s.Kind == "jwt" && (s.State == "revoked" || s.State == "rotated")) && tt.Unverifiable == ""
+		verifies := (s.State == "live" || s.Kind == "jwt" && (s.State == "revoked" || s.State == "rotated") || s.State == "resigned" && tt.resignedServed) && tt.Unverifiable == ""
 		if verifies && (s.Kind == "jwt" && s.Declared == "id" || s.Kind == "id" && s.Declared == "access") {
 			return -1, "jwt-kind-confusion:" + s.Kind + "-as-" + s.Declared
 		}
@@ -833,42 +850,85 @@ func (w *world) validity(s TokSpec, tt tokenTruth, role string) (int, string) {
 	return 1, "live:" + s.Kind
 }
 
-// credential presentation and the model's verdict on client authentication: +1 authenticated, -1 not, 0 grey
+// credential presentation and the model's verdict on client authentication: +1 authenticated, -1 not, 0 grey.
+//
+// The model is written from the statement ("succeeds only for an authenticated client"), over what the client REGISTERED
+// (auth method; the application type decides nothing) and what the request PRESENTS:
+//
+//	-1  the client has a secret-based or key-based registration (client_secret_basic / client_secret_post / private_key_jwt)
+//	    and the request carries no valid credential of that client: nothing but a client_id, an empty secret by either
+//	    channel, a wrong secret by either channel, a secret for a client that holds none, an assertion signed by a key that
+//	    is not registered; or the request names no client / an unknown client
+//	+1  its own secret (either channel) for a secret-based registration, a valid assertion for a private_key_jwt registration
+//	 0  public clients (auth method none: identified, not authenticated - whether they are served is not said), and a valid
+//	    credential of another kind than the registered one (a valid assertion of a key registered for a secret-based
+//	    client): which credential kinds count for which registration is property C05's question
 func (w *world) credential() (vkit.Cred, int, string) {
 	a := w.clA
 	method := a.AuthMethod
+	public := method == "none"
+	other := map[string]string{"basic": "post", "post": "basic"}
+	own := "basic" // the channel the client is registered for (secret-less registrations: Basic)
+	if method == "client_secret_post" {
+		own = "post"
+	}
 	switch w.c.Cred {
 	case "right":
 		cr := vkit.RightCred(a, w.iss)
-		if method == "none" {
+		if public {
 			return cr, 0, "public-client-identified"
 		}
 		return cr, 1, "right"
 	case "basic_right", "post_right":
 		kind := strings.TrimSuffix(w.c.Cred, "_right")
 		cr := vkit.Cred{Kind: kind, ClientID: a.ID, Secret: "secret-a"}
-		if method == "none" {
+		if public {
 			return cr, 0, "public-client-with-bogus-secret"
 		}
 		if a.Secret == "" {
 			return cr, -1, "secret-for-client-without-secret"
 		}
 		return cr, 1, "secret-via-" + kind
-	case "wrong_secret":
-		kind := "basic"
-		if method == "client_secret_post" {
-			kind = "post"
+	case "wrong_secret", "wrong_secret_other":
+		kind := own
+		why := "wrong-secret"
+		if w.c.Cred == "wrong_secret_other" {
+			kind, why = other[own], "wrong-secret-via-other-channel"
 		}
 		cr := vkit.Cred{Kind: kind, ClientID: a.ID, Secret: "not-the-secret"}
-		if method == "none" {
+		if public {
 			return cr, 0, "public-client-with-bogus-secret"
 		}
-		return cr, -1, "wrong-secret"
+		return cr, -1, why
 	case "no_cred":
-		if method == "none" {
+		if public {
 			return vkit.Cred{Kind: "none"}, -1, "no-client-at-all"
 		}
 		return vkit.Cred{Kind: "none", ClientID: a.ID}, -1, "confidential-client-id-only"
+	case "id_only":
+		cr := vkit.Cred{Kind: "none", ClientID: a.ID}
+		if public {
+			return cr, 0, "public-client-identified"
+		}
+		return cr, -1, "confidential-client-id-only"
+	case "basic_empty", "post_empty":
+		// the client names itself and presents an EMPTY secret: nothing is proved by that
+		kind := strings.TrimSuffix(w.c.Cred, "_empty")
+		cr := vkit.Cred{Kind: kind, ClientID: a.ID}
+		if public {
+			return cr, 0, "public-client-identified"
+		}
+		return cr, -1, "empty-secret-via-" + kind
+	case "own_assertion":
+		// a valid assertion, signed with a key that is registered for the client
+		cr := vkit.Cred{Kind: "assertion", Assertion: vkit.ClientAssertion(a, w.iss, time.Now())}
+		switch {
+		case method == "private_key_jwt":
+			return cr, 1, "right"
+		case public:
+			return cr, 0, "public-client-with-valid-assertion"
+		}
+		return cr, 0, "valid-assertion-for-secret-client"
 	case "unknown_client":
 		return vkit.Cred{Kind: "basic", ClientID: "nobody", Secret: "secret-a"}, -1, "unknown-client"
 	case "malformed_basic":
@@ -877,7 +937,7 @@ func (w *world) credential() (vkit.Cred, int, string) {
 	case "bad_assertion":
 		now := time.Now()
 		as := vkit.AssertionWith(a.ID, a.ID, []string{w.iss}, "ka", "rsa4", now.Add(-5*time.Second), now.Add(5*time.Minute), nil)
-		if method == "none" {
+		if public {
 			return vkit.Cred{Kind: "assertion", Assertion: as, BodyID: a.ID}, 0, "public-client-with-bogus-assertion"
 		}
 		return vkit.Cred{Kind: "assertion", Assertion: as}, -1, "assertion-signed-by-wrong-key"
@@ -914,6 +974,13 @@ func run(c Case) (res *vkit.Result) {
 		w.clA.AppType = "native"
 	case "private_key_jwt":
 		w.clA.Secret = ""
+		w.clA.Keys = map[string]string{"ka": "rsa3"}
+	}
+	if contains(appTypes, c.AppType) {
+		w.clA.AppType = c.AppType
+	}
+	if c.Cred == "own_assertion" {
+		// a key is registered for the client whatever its auth method (request objects, jwt-bearer grants, ...)
 		w.clA.Keys = map[string]string{"ka": "rsa3"}
 	}
 	w.clB = webClient("client-b", "secret-b")
@@ -1140,7 +1207,11 @@ func (w *world) exchange(res *vkit.Result, idx int, st Step, subj, act tokenTrut
 	out := stepOut{Outcome: outcome, NonTrivial: authV >= 0} // non-trivial: the request got past client authentication, i.e. the exchange logic itself decided
 	res.Label("outcome:"+strings.SplitN(outcome, ":", 2)[0], "requested:"+orNone(c.Requested), "subject:"+validityClass(sv, sWhy, true))
 	if idx == 0 {
-		res.Label("auth:" + authClass(authV, authWhy))
+		res.Label("auth:"+authClass(authV, authWhy), "client:"+w.clA.AppType+"/"+w.clA.AuthMethod, "presentation:"+c.Cred)
+		if authV < 0 && w.clA.AuthMethod != "none" {
+			// a secret-based / key-based registration and no valid credential: per application type
+			res.Label("unauthenticated:" + w.clA.AppType + "/" + authWhy + map[bool]string{true: "/no-exchange-grant"}[c.NoGrant])
+		}
 	}
 	if matchingType(c.Subject.Kind) != "" {
 		res.Label("subject-kind:" + c.Subject.Kind)
@@ -1205,7 +1276,7 @@ func (w *world) exchange(res *vkit.Result, idx int, st Step, subj, act tokenTrut
 	if sameString {
 		actorKey += "/same"
 	}
-	out.Key = fmt.Sprintf("%s|%s|%s|%s/%s/%s|%s|req=%s|def=%s|jwt=%v|imp=%v|veto=%v|third=%v/%v|%s", c.Router, c.ClientAuth, c.Cred,
+	out.Key = fmt.Sprintf("%s|%s|%s|%s/%s/%s|%s|req=%s|def=%s|jwt=%v|imp=%v|veto=%v|third=%v/%v|%s", c.Router, c.ClientAuth+map[bool]string{true: "/" + c.AppType}[c.AppType != ""], c.Cred,
 		c.Subject.Kind, c.Subject.State, c.Subject.Declared, actorKey, c.Requested, c.Policy.DefaultType, c.IssueJWT, c.Policy.Impersonate != "", c.Policy.Veto, c.Policy.VerifyThird, c.Extras, strings.SplitN(outcome, ":", 2)[0])
 	if tp := w.plus(); tp != (tePlus{}) {
 		out.Key += "|act=" + tp.Act + "|vouch=" + tp.VouchRole
@@ -1294,8 +1365,10 @@ func authClass(v int, why string) string {
 	switch {
 	case v > 0:
 		return "authenticated"
-	case v == 0:
+	case v == 0 && strings.HasPrefix(why, "public-client"):
 		return "public-client(grey)"
+	case v == 0:
+		return "grey:" + why
 	}
 	if why == "no-client-at-all" || why == "confidential-client-id-only" {
 		why = "no-credentials"
@@ -1558,7 +1631,7 @@ func (w *world) judgeSuccess(res *vkit.Result, resp *vkit.Resp, effective, expSu
 var prop = vkit.Prop[Case]{
 	ID: "C15",
 	Rule: "cases = subject token and optional actor token, each minted through the real code flow (opaque / JWT access token, refresh token, ID token; own or other client; user u1-u3) and then left live or expired / revoked / rotated / issued by a foreign provider / re-signed / wrong issuer / alg none / tampered, or a storage-vouched third-party token, or garbage " +
-		"x declared type (matching, other supported, unsupported, absent) x requested type (absent, access, refresh, id, jwt, unsupported) x scope / audience / resource lists x storage policy (default type when requested_token_type is absent: access / refresh / id / none = left unset, impersonation, dropped scopes, veto, third-party verifier vouching in both roles / as subject only / as actor only, access-token liveness check on / off, the act claim the storage publishes: {sub: actor token subject} / pseudonymous actor id / nested chain through a gateway / further members / never any / also without an actor token - every JWT handed out (JWT access token, ID token, companion of a refresh token) must carry exactly the act the storage supplied, absent when it supplied none) x the actor token being the very string presented as subject token (declared as what it is / as the subject declares it / as another supported type / unsupported / absent; a third-party token vouched in one role only) x client auth method x credential presentation (right, secret by the other channel, wrong secret, none, unknown client, forged assertion, malformed Basic header) x client grants x issued access token format x signing key x router, drawn in three modes (every premise true / exactly one broken / free); " +
+		"x declared type (matching, other supported, unsupported, absent) x requested type (absent, access, refresh, id, jwt, unsupported) x scope / audience / resource lists x storage policy (default type when requested_token_type is absent: access / refresh / id / none = left unset, impersonation, dropped scopes, veto, third-party verifier vouching in both roles / as subject only / as actor only, access-token liveness check on / off, the act claim the storage publishes: {sub: actor token subject} / pseudonymous actor id / nested chain through a gateway / further members / never any / also without an actor token - every JWT handed out (JWT access token, ID token, companion of a refresh token) must carry exactly the act the storage supplied, absent when it supplied none) x the actor token being the very string presented as subject token (declared as what it is / as the subject declares it / as another supported type / unsupported / absent; a third-party token vouched in one role only) x the exchanging client's registration (application type web / native / user_agent drawn independently of the auth method client_secret_basic / client_secret_post / none / private_key_jwt, registered for the grant or not) x credential presentation (right, its secret by Basic / by the form whatever the registered channel, wrong secret by the registered / the other channel, client_id only, Basic with an empty password, client_id with an empty client_secret, nothing at all, a valid assertion of a key registered for the client whatever its method, unknown client, forged assertion, malformed Basic header; model of authenticated from the registration alone: a secret-based or key-based registration that presents no valid credential is unauthenticated whatever its application type = must-reject, public clients and valid credentials of another kind than the registered one are grey) x client grants x issued access token format x signing key x router, drawn in three modes (every premise true / exactly one broken / free); " +
 		"half of the cases add the provider's life around the exchange: a provider whose issuer is derived from the Host header serving two hosts (tokens obtained on one host presented on the other: a JWT / ID token of the other host's issuer is a foreign token = must-reject, issuer-less opaque / refresh tokens of the other host are grey) and / or 1-3 further exchanges on the SAME provider, each on a generated host, each preceded by a generated key change of the storage (rotation with the old public keys kept / all withdrawn under a new or the same kid, withdrawal of the older keys), presenting tokens minted before any of the earlier exchanges or the very subject token of an earlier exchange again; every exchange is judged by the same model against the keys the storage serves and the store's records AT THAT TIME: a JWT signed by a key the storage has withdrawn is not a live, verifiable token of the provider = invalid subject / actor token = must-reject, one signed by an older key that is still published stays valid; " +
 		"non-trivial = the request passes client authentication so the exchange logic decides; distinct = (router, auth method, credential, subject kind/state/declared, actor kind/state/declared, requested, default, format, impersonation, veto, verifier, outcome)",
 	Gen: genCase,
